@@ -374,6 +374,8 @@ static void countParams(ChildOut &co, const ColoquinteParameters &p, int mode, c
 static std::string forked(const std::function<std::string()> &f, std::string &text) {
   std::string diag;
   std::string how = vh::isolated([&](std::ostream &os) { os << f(); }, text, 240, &diag);
+  // a ThreadSanitizer report of the grandchild belongs to this case (the pool reads this child's stderr)
+  if (diag.find("WARNING: ThreadSanitizer") != std::string::npos && write(2, diag.data(), diag.size()) < 0) how = "stderr-unwritable";
   if (how != "ok") {
     std::string first;
     std::istringstream is(diag);
@@ -550,6 +552,8 @@ static void orderCase(ChildOut &co, const std::string &id, vh::Rng &g, bool thor
     }
   };
   uint64_t serialBase = g.next() >> 16;
+  // half of the cases: every run has an observing callback, the placements it is shown are part of the result
+  bool observe = g.chance(1, 2);
   // the process runs the jobs in the given order and reports one line per job
   auto runOrder = [&](const std::vector<int> &order) {
     // every process starts with other patterns in its dead memory
@@ -557,7 +561,10 @@ static void orderCase(ChildOut &co, const std::string &id, vh::Rng &g, bool thor
     for (int j : order) h = h * 31 + (uint64_t)j + 1;
     gPerturbSerial = h % 1000003;
     std::string outText;
-    for (int j : order) outText += std::to_string(j) + "\t" + runSeq(jobs[j].c, jobs[j].seq, jobs[j].p, false).text + "\n";
+    for (int j : order) {
+      RunResult r = runSeq(jobs[j].c, jobs[j].seq, jobs[j].p, observe);
+      outText += std::to_string(j) + "\t" + r.text + (observe ? " intermediate placements shown to the callback: " + r.trace : "") + "\n";
+    }
     return outText;
   };
   co.op("case " + id);
@@ -595,6 +602,7 @@ static void orderCase(ChildOut &co, const std::string &id, vh::Rng &g, bool thor
   co.count(std::string("o:jobs=") + std::to_string(n));
   co.count(sameCircuit ? "o:same_circuit" : "o:different_circuits");
   co.count(globalSide ? "o:global_side" : "o:detailed_side");
+  co.count(observe ? "o:with_observing_callback" : "o:without_callback");
   bool noiseDiffer = true;
   for (int j = 0; j < n; ++j) {
     countParams(co, jobs[j].p, jobs[j].mode, jobs[j].seq);
@@ -675,7 +683,7 @@ static long long countSchedules() {
 // tools/props/C08.py runs the sanitizer-free build under `valgrind --error-exitcode`; every case prints a marker to stderr
 // (where valgrind reports), so that a use of an uninitialised value is attributed to a case.
 static int vgMain(const vh::Args &a, vh::Out &out) {
-  long long n = a.only >= 0 ? 1 : 10;
+  long long n = a.only >= 0 ? 1 : a.tier == "vgmore" ? 150 : 12;
   std::ofstream inputs(a.out + "/vg-cases.txt");
   int nul = open("/dev/null", O_WRONLY);
   dup2(nul, 1);  // the library reports progress on stdout
@@ -735,7 +743,7 @@ int main(int argc, char **argv) {
 #else
   out.notes.push_back("sanitizer allocator: heap perturbation limited to scribbled freed blocks (quarantine); see the `fast` build step");
 #endif
-  if (a.tier == "vg") return vgMain(a, out);
+  if (a.tier == "vg" || a.tier == "vgmore") return vgMain(a, out);
   // protocol summary for the driver
   out.ops << "case summary\n";
   out.impl << "case summary\n";
@@ -759,8 +767,8 @@ int main(int argc, char **argv) {
       for (auto &ln : vh::readLines(a.corpus + "/cases.txt"))
         if (parseId(ln)) out.count("corpus");
     // tier `perturb`: the sanitizer-free build driven by tools/props/C08.py (oracle only)
-    long long n = a.thorough() ? 6000 : a.search() ? 800 : a.tier == "perturb" ? 1500 : 400;
-    long long no = a.thorough() ? 3000 : a.search() ? 600 : a.tier == "perturb" ? 700 : 250;
+    long long n = a.thorough() ? 6000 : a.search() ? 800 : a.tier == "perturb" ? 1000 : a.tier == "perturbmore" ? 10000 : 400;
+    long long no = a.thorough() ? 3000 : a.search() ? 600 : a.tier == "perturb" ? 500 : a.tier == "perturbmore" ? 5000 : 250;
     if (a.only >= 0) jobs.push_back(mkJob('d', a.seed, a.only));
     else {
       // interleaved, so that both streams are reached early
